@@ -153,6 +153,23 @@ def _prep_spec_dir(sc, extra_files=None):
     return d
 
 
+def run_apalache(sc, module, args, timeout=600):
+    """Bonus runs with Apalache (never the deciding check): returns "ok", "error" (a counterexample was found)
+    or "unavailable" (time-out, tool missing, anything else)."""
+    d = tempfile.mkdtemp(prefix="apa-", dir=sc.dir)
+    shutil.copy(os.path.join(VERIF, "spec", module + ".tla"), d)
+    try:
+        p = subprocess.run(["apalache-mc", "check"] + args + ["--out-dir=" + os.path.join(d, "out"), module + ".tla"],
+                           cwd=d, capture_output=True, text=True, timeout=timeout)
+    except (subprocess.TimeoutExpired, OSError):
+        return "unavailable"
+    if "EXITCODE: OK" in p.stdout:
+        return "ok"
+    if "Checker has found an error" in p.stdout:
+        return "error"
+    return "unavailable"
+
+
 def run_tlc(sc, module, cfg, workers=None, simulate=None, depth=None, seed=None,
             timeout=1800, extra_files=None, deque=False, coverage=False,
             heap=None, collect_json=False, extra_args=None, allow_violation=False,
